@@ -339,6 +339,15 @@ def havoc_path(ip, roots, path, kinds=None):
     kind = (kinds or {}).get(path)
     if isinstance(holder, Obj):
         cur = holder.attrs.get(attr)
+        if isinstance(cur, PyDict) and kind is None and all(isinstance(x, (SymSeq, SymMap)) for x in cur.vals):
+            # a dict of concrete keys holding symbolic containers: havoc each container in place
+            for i, x in enumerate(cur.vals):
+                n = fresh_like(ip, x, '%s_%d' % (path.replace('.', '_'), i))
+                if isinstance(x, SymSeq):
+                    x.arr, x.n, x.meas, x.facts = n.arr, n.n, n.meas, None
+                else:
+                    x.dom, x.val, x.size = n.dom, n.val, n.size
+            return
         if isinstance(cur, (SymSeq, SymMap)) and kind is None:
             # mutable symbolic container: havoc in place (aliases see it)
             n = fresh_like(ip, cur, path.replace('.', '_'))
